@@ -187,6 +187,7 @@ def run_check(prop, streams, argv, level_text='', trusted_base=(), assumptions=(
         for st in streams:
             if hasattr(st, '_tier'):
                 st._tier = search_tier
+    transient = []
     for st in streams:
         rng = random.Random('%s/%s/%d' % (prop, st.name, seed))
         if replay:
@@ -282,6 +283,28 @@ def run_check(prop, streams, argv, level_text='', trusted_base=(), assumptions=(
                 oc2 = st.oracle(small, io2)
             except Exception:  # noqa
                 oc2 = oc
+            def still_fails(x, a, b, o):
+                d_ = b is not None and 'UNMODELLED' not in b and not a.startswith('SKIP') and not st.same(a, b)
+                return o is not None or d_
+            if not replay and not still_fails(small, io2, mo2, oc2):
+                # the minimised case does not fail when evaluated again: fall back to the case as generated, and
+                # confirm THAT once more.  A disagreement that does not reproduce is no replay at all (observed
+                # once, on a machine under heavy load, in the SQLite crash-point stream): it is counted and named in
+                # the evidence, not raised.
+                io3 = safe_impl(st, c)
+                try:
+                    oc3 = st.oracle(c, io3)
+                except Exception:  # noqa
+                    oc3 = None
+                if still_fails(c, io3, mo, oc3):
+                    small, io2, mo2, oc2 = c, io3, mo, oc3
+                else:
+                    st_dis -= 1
+                    transient.append({'stream': st.name, 'case': c, 'first_observation': io, 'model_observation': mo,
+                                      'oracle_then': oc, 'again': io3})
+                    print('NOTE: stream %s: one disagreement did not reproduce when its case was evaluated again '
+                          '(recorded under coverage.transient in the evidence file)' % st.name)
+                    continue
             impl_violates = oc2 is not None or not hasattr(st, 'oracle_complete') or not st.oracle_complete
             payload = {
                 'property': prop, 'kind': 'violation', 'stream': st.name, 'seed': seed, 'tier': tier,
@@ -299,6 +322,11 @@ def run_check(prop, streams, argv, level_text='', trusted_base=(), assumptions=(
         total_eval += len(cases)
         total_nontrivial += len(nontriv)
         total_unmodelled += n_unmod
+        if cases and n_unmod * 20 > len(cases):
+            # more than 5% of a stream skipped: say so where it is seen (a configuration that never runs is a hole, not
+            # a pass - the sqlite_regexp configuration of C07 was silently skipped this way for a while)
+            print('NOTE: stream %s: %d of %d cases were skipped as unmodelled / rejected by the set-up'
+                  % (st.name, n_unmod, len(cases)))
         cov['streams'][st.name] = {
             'evaluations': len(cases), 'distinct_nontrivial': len(nontriv), 'unmodelled_skipped': n_unmod,
             'disagreements': st_dis, 'rule': st.rule, 'observation_distribution': dist,
@@ -339,6 +367,7 @@ def run_check(prop, streams, argv, level_text='', trusted_base=(), assumptions=(
             'broken_obligations': broken,
             'translation': translation_info,
             'known_findings_seen': sorted(known_lines),
+            'transient': transient[:5],
         },
         'assumptions': list(assumptions),
         'wall_s': round(wall, 2),
